@@ -116,19 +116,6 @@ pub proof fn lemma_submul_range(a: int, cpm: int, m: int, b: int)
 
 // ---- generic facts -------------------------------------------------------------------------------
 
-pub proof fn lemma_pw1()
-    ensures pw(1) == B(), pw(0) == 1,
-{
-    assert(pw(1) == B() * pw(0));
-    assert(pw(0) == 1);
-}
-
-pub proof fn lemma_pw_succ(n: int)
-    requires n >= 0,
-    ensures pw(n + 1) == B() * pw(n),
-{
-}
-
 /// value of a window s[k..k+n) seen as its own slice
 pub proof fn lemma_valn_window(s: Seq<Word>, k: int, n: int)
     requires 0 <= k, 0 <= n, k + n <= s.len(),
@@ -145,4 +132,103 @@ pub proof fn lemma_addmul_hi(lo1: int, lo0: int, x: int, c: int, hi1: int, hi0: 
 {
     assert(q * (hi1 + cout * p) == q * hi1 + cout * (q * p)) by (nonlinear_arith);
     assert(q * (hi0 + c) == q * hi0 + c * q) by (nonlinear_arith);
+}
+
+// ---- rows of the schoolbook product (mul/simple.rs) -----------------------------------------------
+
+/// row i of c ±= a·b: the window c[i..i+n) is updated (c0 -> c1), then the word c[i+n] (c1 -> c2)
+pub proof fn lemma_mul_row_frame(c0: Seq<Word>, c1: Seq<Word>, c2: Seq<Word>, i: int, n: int)
+    requires 0 <= i, 0 <= n, i + n < c0.len(), c1.len() == c0.len(), c2.len() == c0.len(),
+        forall|j: int| 0 <= j < i ==> c1[j] == c0[j],
+        forall|j: int| 0 <= j < i + n ==> c2[j] == c1[j],
+    ensures
+        valn(c0, n + i) == valn(c0, i) + pw(i) * val(c0.subrange(i, i + n)),
+        valn(c2, n + i) == valn(c0, i) + pw(i) * val(c1.subrange(i, i + n)),
+        valn(c2, n + i + 1) == valn(c2, n + i) + (c2[n + i] as int) * pw(n + i),
+        pw(n + i) == pw(i) * pw(n),
+        pw(n + i + 1) == B() * pw(n + i),
+{
+    lemma_valn_window(c0, i, n);
+    lemma_valn_window(c2, i, n);
+    assert(c2.subrange(i, i + n) =~= c1.subrange(i, i + n));
+    lemma_valn_ext(c2, c0, i);
+    lemma_pw_add(i, n);
+}
+
+/// algebra of one row of c += a·b
+///   x0 = valn(c0,n+i), x2 = valn(c2,n+i), l0 = valn(c0,i), w0/w1 = window before/after, o = valn(old,n+i),
+///   t = c0[n+i] = old[n+i], s = c2[n+i], cw = carry word of the row, k0/k1 = carry bit before/after
+pub proof fn lemma_addmul_row(x0: int, x2: int, l0: int, w0: int, w1: int, o: int, t: int, s: int, cw: int,
+    k0: int, k1: int, a: int, bi: int, m: int, p: int, q: int)
+    requires x0 == l0 + p * w0, x2 == l0 + p * w1, w1 + cw * q == w0 + m * a,
+        s + k1 * B() == t + cw + k0, x0 + k0 * (p * q) == o + a * bi,
+    ensures (x2 + s * (p * q)) + k1 * (B() * (p * q)) == (o + t * (p * q)) + a * (bi + m * p),
+{
+    assert(p * (w1 + cw * q) == p * w1 + cw * (p * q)) by (nonlinear_arith);
+    assert(p * (w0 + m * a) == p * w0 + a * (m * p)) by (nonlinear_arith);
+    assert((s + k1 * B()) * (p * q) == s * (p * q) + k1 * (B() * (p * q))) by (nonlinear_arith);
+    assert((t + cw + k0) * (p * q) == t * (p * q) + cw * (p * q) + k0 * (p * q)) by (nonlinear_arith);
+    assert(a * (bi + m * p) == a * bi + a * (m * p)) by (nonlinear_arith);
+}
+
+/// algebra of one row of c −= a·b
+pub proof fn lemma_submul_row(x0: int, x2: int, l0: int, w0: int, w1: int, o: int, t: int, s: int, cw: int,
+    k0: int, k1: int, a: int, bi: int, m: int, p: int, q: int)
+    requires x0 == l0 + p * w0, x2 == l0 + p * w1, w1 - cw * q == w0 - m * a,
+        s - k1 * B() == t - cw - k0, x0 - k0 * (p * q) == o - a * bi,
+    ensures (x2 + s * (p * q)) - k1 * (B() * (p * q)) == (o + t * (p * q)) - a * (bi + m * p),
+{
+    assert(p * (w1 - cw * q) == p * w1 - cw * (p * q)) by (nonlinear_arith);
+    assert(p * (w0 - m * a) == p * w0 - a * (m * p)) by (nonlinear_arith);
+    assert((s - k1 * B()) * (p * q) == s * (p * q) - k1 * (B() * (p * q))) by (nonlinear_arith);
+    assert((t - cw - k0) * (p * q) == t * (p * q) - cw * (p * q) - k0 * (p * q)) by (nonlinear_arith);
+    assert(a * (bi + m * p) == a * bi + a * (m * p)) by (nonlinear_arith);
+}
+
+/// row i of c += a·b on sequences: re-establishes the loop invariant of add_mul_chunk for i + 1
+pub proof fn lemma_addmul_row_seq(c0: Seq<Word>, c1: Seq<Word>, c2: Seq<Word>, o: Seq<Word>, a: Seq<Word>,
+    b: Seq<Word>, i: int, cw: int, k0: int, k1: int)
+    requires 0 <= i < b.len(), c0.len() == a.len() + b.len(), c1.len() == c0.len(), c2.len() == c0.len(),
+        o.len() == c0.len(),
+        forall|j: int| 0 <= j < i ==> c1[j] == c0[j],
+        forall|j: int| 0 <= j < i + a.len() ==> c2[j] == c1[j],
+        c1[a.len() + i] == c0[a.len() + i], c0[a.len() + i] == o[a.len() + i],
+        val(c1.subrange(i, i + a.len())) + cw * pw(a.len() as int)
+            == val(c0.subrange(i, i + a.len())) + (b[i] as int) * val(a),
+        c2[a.len() + i] as int + k1 * B() == c1[a.len() + i] as int + cw + k0,
+        valn(c0, a.len() + i) + k0 * pw(a.len() + i) == valn(o, a.len() + i) + val(a) * valn(b, i),
+    ensures
+        valn(c2, a.len() + i + 1) + k1 * pw(a.len() + i + 1) == valn(o, a.len() + i + 1) + val(a) * valn(b, i + 1),
+{
+    let n = a.len() as int;
+    lemma_mul_row_frame(c0, c1, c2, i, n);
+    assert(valn(o, n + i + 1) == valn(o, n + i) + (o[n + i] as int) * pw(n + i));
+    assert(valn(b, i + 1) == valn(b, i) + (b[i] as int) * pw(i));
+    lemma_addmul_row(valn(c0, n + i), valn(c2, n + i), valn(c0, i), val(c0.subrange(i, i + n)),
+        val(c1.subrange(i, i + n)), valn(o, n + i), c0[n + i] as int, c2[n + i] as int, cw, k0, k1,
+        val(a), valn(b, i), b[i] as int, pw(i), pw(n));
+}
+
+/// row i of c −= a·b on sequences
+pub proof fn lemma_submul_row_seq(c0: Seq<Word>, c1: Seq<Word>, c2: Seq<Word>, o: Seq<Word>, a: Seq<Word>,
+    b: Seq<Word>, i: int, cw: int, k0: int, k1: int)
+    requires 0 <= i < b.len(), c0.len() == a.len() + b.len(), c1.len() == c0.len(), c2.len() == c0.len(),
+        o.len() == c0.len(),
+        forall|j: int| 0 <= j < i ==> c1[j] == c0[j],
+        forall|j: int| 0 <= j < i + a.len() ==> c2[j] == c1[j],
+        c1[a.len() + i] == c0[a.len() + i], c0[a.len() + i] == o[a.len() + i],
+        val(c1.subrange(i, i + a.len())) - cw * pw(a.len() as int)
+            == val(c0.subrange(i, i + a.len())) - (b[i] as int) * val(a),
+        c2[a.len() + i] as int - k1 * B() == c1[a.len() + i] as int - cw - k0,
+        valn(c0, a.len() + i) - k0 * pw(a.len() + i) == valn(o, a.len() + i) - val(a) * valn(b, i),
+    ensures
+        valn(c2, a.len() + i + 1) - k1 * pw(a.len() + i + 1) == valn(o, a.len() + i + 1) - val(a) * valn(b, i + 1),
+{
+    let n = a.len() as int;
+    lemma_mul_row_frame(c0, c1, c2, i, n);
+    assert(valn(o, n + i + 1) == valn(o, n + i) + (o[n + i] as int) * pw(n + i));
+    assert(valn(b, i + 1) == valn(b, i) + (b[i] as int) * pw(i));
+    lemma_submul_row(valn(c0, n + i), valn(c2, n + i), valn(c0, i), val(c0.subrange(i, i + n)),
+        val(c1.subrange(i, i + n)), valn(o, n + i), c0[n + i] as int, c2[n + i] as int, cw, k0, k1,
+        val(a), valn(b, i), b[i] as int, pw(i), pw(n));
 }
